@@ -98,8 +98,8 @@ PROPS = {
         "assumptions": [],
     },
     "C04": {
-        "level_text": "Theorems (Lean 4 kernel) about the REGENERATED call-structured formula programs (tools/gotr T2 from curve.go on every run): for EVERY pair of well-formed Jacobian triples - any Z scaling, Z = 1, shared Z, equal points, opposite points, the identity in any encoding - AddNonConst with a distinct result and AddNonConst with the result aliasing the first operand return a well-formed (normalised, on-curve or identity) triple representing the affine sum; DoubleNonConst in place represents 2P (identity when Y = 0, which cannot occur for curve points because -7 is not a cube mod P); ToAffine returns (X/Z^2, Y/Z^3, 1). Each of the four add routines, both doubling routines and the 37-path dispatch are proved path by path (unfold, cast to ZMod P, field_simp, ring). The affine law they are compared with is proved to be Mathlib's WeierstrassCurve.Affine.Point addition (Secp.Proofs.SpecGroup). The same programs are executed by the driver and diffed with the real routines on all relation classes x Z patterns x three alias patterns, the six internal routines through hooks, and off-curve field values.",
-        "level_note": "Trusted: Lean kernel + Mathlib's definition of the curve group; tools/gotr T2 (regenerated every run, its programs executed against the real routines). Value level: the programs compute with field values; that the limb code realises each field operation exactly under the magnitudes used is C05 + C16. The aliasing pattern result = p2 (AddNonConst_a011), which no caller in the library uses, is covered by the correspondence run only, not by a theorem. Proofs name paths by index, so a reordering of statements in curve.go can break them although the property holds (reported as no-failing-input-found).",
+        "level_text": "Theorems (Lean 4 kernel) about the REGENERATED call-structured formula programs (tools/gotr T2 from curve.go on every run): for EVERY pair of well-formed Jacobian triples - any Z scaling, Z = 1, shared Z, equal points, opposite points, the identity in any encoding - AddNonConst with a distinct result, with the result aliasing the first operand and with the result aliasing the second operand (first operand left untouched) return a well-formed (normalised, on-curve or identity) triple representing the affine sum; DoubleNonConst in place represents 2P (identity when Y = 0, which cannot occur for curve points because -7 is not a cube mod P); ToAffine returns (X/Z^2, Y/Z^3, 1). Each of the four add routines, both doubling routines and the 37-path dispatch are proved path by path (unfold, cast to ZMod P, field_simp, ring). The affine law they are compared with is proved to be Mathlib's WeierstrassCurve.Affine.Point addition (Secp.Proofs.SpecGroup). The same programs are executed by the driver and diffed with the real routines on all relation classes x Z patterns x three alias patterns, the six internal routines through hooks, and off-curve field values.",
+        "level_note": "Trusted: Lean kernel + Mathlib's definition of the curve group; tools/gotr T2 (regenerated every run, its programs executed against the real routines). Value level: the programs compute with field values; that the limb code realises each field operation exactly under the magnitudes used is C05 + C16. Proofs name paths by index, so a reordering of statements in curve.go can break them although the property holds (reported as no-failing-input-found).",
         "technique": "Lean 4 proof (field_simp/ring against the affine law, bridged to Mathlib's group) about regenerated formula programs + differential run of the same programs",
         "trusted_base": COMMON_TRUST + ["tools/gotr T2 (regenerated, executed)", "Mathlib WeierstrassCurve.Affine.Point"],
         "assumptions": ["operands are well-formed Jacobian triples (normalised coordinates, on the curve or an identity encoding): the routines' documented contract"],
